@@ -122,6 +122,48 @@ def fragile(ck, fc):
     return {"evaluations": n, "failures": fails}
 
 
+def configured(ck):
+    """the real Spectra driven through the real configuration classes: indices given as float, int and text; mono energies that are not
+    representable in single precision; one energy per requested event"""
+    from nuspacesim.config import NssConfig, Simulation
+    from nuspacesim.simulation.spectra.spectra import Spectra
+
+    fails, n = [], 0
+    u = np.array([0.03, 0.25, 0.5, 0.75, 0.97])
+    for idx in (0, 1, 2, 3, 4, 0.0, 1.0, 2.0, 3.0, 4.0, 2.5, "3", "2.5"):
+        for lo, hi in ((6.0, 12.0), (7.5, 9.25)):
+            n += 1
+            try:
+                cfg = NssConfig()
+                cfg.simulation.spectrum = Simulation.PowerSpectrum(index=idx, lower_bound=lo, upper_bound=hi)
+                with harness.patched_rng([u.copy()]), np.errstate(all="ignore"):
+                    L, norm, wsum = Spectra(cfg)(len(u))
+            except Exception as ex:
+                fails.append({"obligation": "bounded.configured.power", "clause": "a power-law spectrum configured with index %r samples without error" % (idx,), "input": {"index": repr(idx), "lower": lo, "upper": hi}, "observed": "raised %r" % ex})
+                continue
+            p = float(idx)
+            L = np.asarray(L, dtype=float)
+            a, b = 10.0**lo, 10.0**hi
+            with np.errstate(all="ignore"):
+                F = np.log(10.0**L / a) / np.log(b / a) if p == 1 else ((10.0**L) ** (1 - p) - a ** (1 - p)) / (b ** (1 - p) - a ** (1 - p))
+            ok = L.shape == u.shape and np.all(np.isfinite(L)) and np.all((L >= lo - 1e-9) & (L <= hi + 1e-9)) and np.allclose(F, u, rtol=0, atol=1e-9) and abs(float(norm) * float(wsum) - 1.0) <= 1e-9
+            if not ok:
+                fails.append({"obligation": "bounded.configured.power", "clause": "F(10^log_e_nu) == u, log_e_nu inside the bounds, norm x weight sum == 1 for an index given as %s" % type(idx).__name__,
+                              "input": {"index": repr(idx), "lower": lo, "upper": hi, "u": u.tolist()}, "observed": {"log_e_nu": L.tolist(), "F": np.asarray(F, float).tolist(), "norm*sum": float(norm) * float(wsum)}})
+    for val in (8.3, 9.7, 6.1, 11.999999, 8.0, 12.0, 1e-3 + 7):
+        for nev in (1, 3):
+            n += 1
+            cfg = NssConfig()
+            cfg.simulation.spectrum = Simulation.MonoSpectrum(log_nu_energy=val)
+            L, norm, wsum = Spectra(cfg)(nev)
+            L = np.asarray(L)
+            ok = L.shape == (nev,) and L.dtype == np.float64 and bool(np.all(L == val)) and float(norm) == 1.0 and float(wsum) == 1.0
+            if not ok:
+                fails.append({"obligation": "bounded.configured.mono", "clause": "a mono-energetic spectrum yields exactly the configured log-energy (compared in double precision), one per event",
+                              "input": {"log_nu_energy": val, "events": nev}, "observed": {"values": [float(x) for x in L.ravel()[:3]], "dtype": str(L.dtype), "shape": list(L.shape)}})
+    return {"evaluations": n, "failures": fails}
+
+
 def stage(ck, full=False):
     qn = "spectra:Spectra.__call__[mono]"
     sc = Scenario(qn, build("mono"), EVENTS, SCALARS, pre=pre)
@@ -164,5 +206,7 @@ def run(ck):
             break
         break
     ck.bounded_run("fragile-guard replay u in {0,1}", lambda: fragile(ck, fc), design="u in {0,1} x 8 indices x 5 bound pairs, exact float64 comparison")
+    ck.bounded_run("real configuration classes: index as float / int / text, mono energies", lambda: configured(ck),
+                   design="13 spellings of the index x 2 bound pairs x 5 fixed uniform numbers (CDF identity to 1e-9, bounds, normalisation); 7 mono energies x {1, 3} events, exact float64 equality")
     # vacuity: a wrong claim must be refuted
     ck.planted("%s/planted" % qn, fc.hyps, sp.Le(sp.Symbol("u", real=True), sym.rat(0.5)))
